@@ -5,6 +5,7 @@ import (
 	"fmt"
 	"sort"
 	"strings"
+	"sync"
 	"time"
 
 	"github.com/gopcua/opcua"
@@ -49,11 +50,16 @@ func c26Body(p c26Params) func() {
 		n := vnet.Net()
 		addr := "127.0.0.1:4840"
 		restart := make(chan struct{}, 4)
+		var emu sync.Mutex // the operator replaces e when it restarts the server
+		cur := func() *env { emu.Lock(); defer emu.Unlock(); return e }
 		go func() {
 			for range restart {
 				n.SetDown(addr, true)
 				e.srv.Close()
-				e = startServer(ctx, nodes)
+				ne := startServer(ctx, nodes)
+				emu.Lock()
+				e = ne
+				emu.Unlock()
 				n.SetDown(addr, false)
 			}
 		}()
@@ -108,7 +114,7 @@ func c26Body(p c26Params) func() {
 				time.Sleep(300 * time.Millisecond)
 				tick++
 				for k := 0; k < nodes; k++ {
-					cur := e
+					cur := cur()
 					if cur.ns.SetAttribute(cur.nodeID(k), ua.AttributeIDValue, server.DataValueFromValue(tick)) == ua.StatusOK {
 						cur.ns.ChangeNotification(cur.nodeID(k))
 						obs.lastWrite[k] = tick
